@@ -119,7 +119,7 @@ func (o crashOp) String() string {
 func crashAlphabet(single bool) []crashOp {
 	big1 := strings.Repeat("0123456789abcdef", 2560)         // 40 KiB
 	big2 := strings.Repeat("fedcba9876543210", 2560)[:40000] // different content and size
-	big3 := strings.Repeat("0123456789ABCDEF", 2560) // same size as big1, other content
+	big3 := strings.Repeat("0123456789ABCDEF", 2560)         // same size as big1, other content
 	ops := []crashOp{
 		{kind: "put", b: "aaa", k: "k", body: "A"},
 		{kind: "put", b: "aaa", k: "k", body: "BBB"},
